@@ -60,7 +60,7 @@ PAD_SMALL = [(0, 6), (1, 6), (2, 4), (3, 3), (7, 2), (30, 2), (120, 2), (254, 1)
 PAD_BIG = [(2000, 3), (9000, 2), (32700, 2), (32766, 1), (32767, 1), (32768, 1), (33000, 1), (50000, 1), (63000, 1)]
 FILL = [(0, 6), (1, 5), (2, 4), (5, 3), (20, 2), (42, 1), (43, 1), (60, 1), (200, 1)]
 FAILS = [("error", 5), ("div", 5), ("index", 3), ("longexpr", 3), ("longarr", 2), ("longwrap", 1), ("multi", 3), ("funlit", 3),
-         ("funlit2", 2), ("funlitml", 2)]
+         ("funlit2", 2), ("funlitml", 2), ("macrodef", 2), ("macrouse", 2), ("strml", 2)]
 CALLS = [("ret", 8), ("assign", 3), ("funlit", 3), ("funlit2", 2), ("funlitml", 2), ("catch", 2), ("multi", 2)]
 CALLS_PLAIN = [("ret", 8), ("assign", 3), ("catch", 2), ("multi", 2)]
 # calls of a function of the same object that do not go through a local call instruction: apply_low (call_other,
@@ -200,6 +200,11 @@ class Gen:
                 frames.append(("<function>", prog, obj, src.name, lo, lo))
             self.meta["fail"] = kind
             return None
+        if kind == "macrodef":
+            # a macro whose DEFINITION spans four physical lines, right in front of the function
+            src.text("#undef C18_DIV\n#define C18_DIV(a, b) \\\n  ((a) \\\n   / \\\n   (b))\n")
+        elif kind == "macrouse":
+            src.text("#undef C18_DIV3\n#define C18_DIV3(a, b, c) ((a) / (b) + (c))\n")
         src.text("int %s(int k) {\n" % name)
         if kind in ("longarr",):
             src.text("  mixed a_;\n")
@@ -243,6 +248,14 @@ class Gen:
             self.meta["long"] = n
         elif kind == "multi":
             src.text("  x_ = 7 +\n\n    (10 / k);\n")
+        elif kind == "macrodef":
+            src.text("  x_ = C18_DIV(10, k);\n")
+        elif kind == "macrouse":
+            # the macro's ARGUMENTS span three lines
+            src.text("  x_ = C18_DIV3(10,\n      k,\n      7);\n")
+        elif kind == "strml":
+            # a string literal that spans two lines (the newline is part of the string)
+            src.text('  x_ = strlen("ab\n  cd") / k;\n')
         elif kind == "funlit2":
             src.text("  return evaluate((: evaluate((: 10 / $1 :), $1) + 1 :), k);\n")
         elif kind == "funlitml":
@@ -590,6 +603,48 @@ def case_bigtable(tag, nfun, nlines, extra=0, binary=True, stmt="  k++;\n", ninc
     exp = "expect kind=plain file=%s lines=%d-%d program=%s object=%s trace=go@%s@%s@%s@%d-%d" % (p, ln, ln, p, o, p, o, p, ln, ln)
     run = ["load o1 %s/m" % d, "apply o1 go", exp, "dump o1"]
     return [m.cmd()] + ([e.cmd()] if nincl else []) + run + (["unload o1"] + run if binary else [])
+
+
+def case_deep_include(tag, depth, rng=None, refuse=False):
+    """include chain m.c -> d1.h -> ... -> d<depth>.h; function f<i> is defined in d<i>.h BEHIND the nested #include
+    (so every level is resumed after a pop) and calls f<i+1>; the deepest one fails.  With `refuse` the chain is one
+    level deeper than the lexer accepts (MAX_INCLUDE_DEPTH): the compile error must name the directive's line"""
+    d = "/c18/%s" % tag
+    p, o = "%s/m.c" % d.lstrip("/"), "%s/m" % d
+    pad = (lambda src: src.pad(rng.choice(["n", "c"]), rng.range(0, 9))) if rng else (lambda src: None)
+    m = Src("%s/m.c" % d)
+    m.text("int x_;\nvoid set_oid(string s) {}\n" + "".join("int f%d(int k);\n" % i for i in range(1, depth + 1)))
+    hs = [Src("%s/d%d.h" % (d, i)) for i in range(1, depth + 1)]
+    files = [m] + hs
+    frames = {}
+    incl_line = {}
+    for i, src in enumerate(files):
+        if i:
+            src.text("// level %d\n" % i)
+        pad(src)
+        if i < depth:
+            incl_line[i] = src.line
+            src.text('#include "d%d.h"\n' % (i + 1))
+    # bodies behind the includes, deepest first in compilation order is irrelevant: each file is written completely
+    for i, src in enumerate(files):
+        pad(src)
+        name = "go" if i == 0 else "f%d" % i
+        src.text("int %s(int k) {\n" % name)
+        ln = src.line
+        if i < depth:
+            src.text("  return f%d(k) + 1;\n}\n" % (i + 1))
+        else:
+            src.text("  x_ = 10 / k;\n  return x_;\n}\n")
+        frames[i] = (name, p, o, src.name, ln, ln)
+    if refuse:
+        top = files[depth - 1]
+        return [f.cmd() for f in files] + ["load o1 %s/m" % d,
+                "expectce file=%s line=%d text=Maximum_include_depth_exceeded" % (top.name, incl_line[depth - 1])]
+    fr = [frames[i] for i in range(depth + 1)]
+    last = fr[-1]
+    exp = "expect kind=plain file=%s lines=%d-%d program=%s object=%s trace=%s" % (
+        last[3], last[4], last[5], p, o, "|".join("%s@%s@%s@%s@%d-%d" % f for f in fr))
+    return [f.cmd() for f in files] + ["load o1 %s/m" % d, "apply o1 go", exp, "dump o1"]
 
 
 def case_toolarge(tag, nfun=45, nstmt=190):
@@ -964,7 +1019,7 @@ class C18(Prop):
             gen("lines%d" % n, fail_kind="div", depth=0, nchild=1, nbase=0, binary=False, prepad=("n", n))
         gen("lines40000-inc", fail_kind="error", depth=2, nchild=3, nbase=0, binary=True, prepad=("c", 40000))
         gen("fillers3000", fail_kind="index", depth=1, nchild=2, nbase=0, binary=False, prepad=("n", 1))
-        for k in ("funlit", "funlit2", "funlitml", "longwrap", "longarr", "multi"):
+        for k in ("funlit", "funlit2", "funlitml", "longwrap", "longarr", "multi", "macrodef", "macrouse", "strml"):
             gen("kind-" + k, fail_kind=k, depth=1, nchild=2, nbase=1, binary=True)
         # the failing statement / a call site on the LAST line of a file: with and without a newline at the end of the
         # file, trailing blank lines, a file that is one line, an #include as the last line of its parent
@@ -1018,6 +1073,11 @@ class C18(Prop):
         mk("overlap-include-ginc", ["mode ginc"] + case_overlap("b_ovl_ginc", where="inc", pad=11), fail="compile-error")
         # 16 bit limits of the tables: code just below 65535 bytes whose line tables are LARGER than 64 KB (file_info[0]
         # wraps; 120 inclusions add segments without code), and a program beyond 65535 bytes (must be refused)
+        # include nesting: deepest chain the lexer accepts, and one level more (refused with a compile error)
+        mk("include-depth-5", case_deep_include("b_deep5", 5), fail="div")
+        mk("include-depth-max", case_deep_include("b_deepmax", 31, rng), fail="div")
+        mk("include-depth-max-ginc", ["mode ginc"] + case_deep_include("b_deepmaxg", 30), fail="div")
+        mk("include-depth-refused", case_deep_include("b_deepref", 32, refuse=True), fail="compile-error")
         mk("bigtable-12k", case_bigtable("b_bigt12", 8, 500, 40, nincl=10), fail="div", long=1)
         mk("program-too-large", case_toolarge("b_toolarge"), fail="compile-error")
         mk("ginc-init", ["mode ginc"] + case_init("b_ginc_init", pad=5, funcs=1), fail="init")
